@@ -134,6 +134,16 @@ class BooleanExpression(Expression):
                 if left or parent_precedence > PRECEDENCE_PREFIX:
                     return f"({expr})"
                 return expr
+            elif type(expression) in _COMPARISONS:
+                # Operands that are themselves logical or comparison expressions
+                # can only have come from a parenthesised group.
+                operands = [
+                    f"({_str(operand, 0)})"
+                    if isinstance(operand, (*_LOGICAL, *_COMPARISONS))
+                    else str(operand)
+                    for operand in (expression.left, expression.right)
+                ]
+                return f"{operands[0]} {_COMPARISONS[type(expression)]} {operands[1]}"
             else:
                 return str(expression)
 
@@ -430,6 +440,19 @@ class ContainsExpression(Expression):
 
     def children(self) -> list[Expression]:
         return [self.left, self.right]
+
+
+_LOGICAL = (LogicalAndExpression, LogicalOrExpression, LogicalNotExpression)
+
+_COMPARISONS: dict[type, str] = {
+    EqExpression: "==",
+    NeExpression: "!=",
+    LeExpression: "<=",
+    GeExpression: ">=",
+    LtExpression: "<",
+    GtExpression: ">",
+    ContainsExpression: "contains",
+}
 
 
 def parse_boolean_primitive(  # noqa: PLR0912
